@@ -443,10 +443,12 @@ Definition apply_one (parent tip : N) (p : presence) (reverted : list N) (w : wa
     end
   end.
 
-Definition clean_old_unconfirmed (w : wallet) (tip : N) : wallet :=
+(** (of the refreshed account only — a [fix:] for C04: before it every account's stale
+    candidates went, checked against the node or not) *)
+Definition clean_old_unconfirmed (w : wallet) (parent tip : N) : wallet :=
   if tip <? 50 then w
   else
-    let dels := filter (fun o => status_eqb (r_status o) Unconfirmed && (0 <? r_height o)
+    let dels := filter (fun o => (r_root o =? parent) && status_eqb (r_status o) Unconfirmed && (0 <? r_height o)
                                  && (r_height o <? tip - 50) && r_cb o) (w_outs w) in
     with_outs w (fold_left (fun acc o => del_out acc (r_key o) None) dels (w_outs w)).
 
@@ -465,7 +467,7 @@ Definition refresh_apply (w : wallet) (parent : N) (update_all : bool) (tip : N)
 (** updater::refresh_outputs: apply the node's answers, then drop stale coinbase candidates *)
 Definition refresh (w : wallet) (parent : N) (update_all : bool) (tip : N) (p : presence)
            (kernel_missing : list N) : wallet :=
-  clean_old_unconfirmed (refresh_apply w parent update_all tip p kernel_missing) tip.
+  clean_old_unconfirmed (refresh_apply w parent update_all tip p kernel_missing) parent tip.
 
 (* ------------------------------------------------------------------ init_send *)
 Definition to_sel (i : N) (o : orec) : out :=
